@@ -8,7 +8,7 @@ import _cesium as C
 
 TRACE_CFG = """SPECIFICATION TSpec
 CONSTANTS
-  T = 10
+  T = 14
   Writers = {"w1"}
   MaxLen = 3
   MaxId = 1000
@@ -108,6 +108,20 @@ def run(ctx):
                 # DeleteTimeRange removes the named data channels first and only then checks
                 # the index guard: a refused call keeps its partial effect
                 sig = "C09 multi-channel delete reported failure after deleting some of its channels"
+            if sig.startswith("C09 not serializable"):
+                # did a compacting GC pass run while a delete call was in progress?
+                win = events[lo:hi]
+                gcs, dels, cur = [], [], {}
+                for k, e in enumerate(win):
+                    if e.get("ev") == "call" and e.get("p") in ("g", "d"):
+                        cur[e["p"]] = k
+                    elif e.get("ev") == "ret" and e.get("p") == "g" and "g" in cur:
+                        if e.get("shrunk"):
+                            gcs.append((cur["g"], k))
+                    elif e.get("ev") == "ret" and e.get("p") == "d" and "d" in cur:
+                        dels.append((cur["d"], k))
+                if any(g[0] < d[1] and d[0] < g[1] for g in gcs for d in dels):
+                    sig = "C09 content wrong after a time-range delete overlapped a compacting GC pass"
             ctx.report(sig,
                        "concurrent trace (GOMAXPROCS=%d) rejected by CesiumLinTrace.tla: %s" % (gmp, what),
                        {"kind": "trace", "trace": events[lo:hi], "unexplained_event_index": at - lo, "gomaxprocs": gmp})
